@@ -99,35 +99,40 @@ def ob_uniform_equiv(n, timeout_ms):
     rb = C03.run_choice(list(range(n)), [1] * n)
     absorb(out, ra)
     absorb(out, rb)
-    pa = [p for p in ra.paths if isinstance(p.outcome, Return)]
-    if len(pa) != 1:
+    pas = [p for p in ra.paths if isinstance(p.outcome, Return)]
+    if not pas:
         out["status"] = "inconclusive"
-        out["note"] = "unweighted run has %d returning paths" % len(pa)
+        out["note"] = "unweighted run has no returning path"
         out["tally"] = tally
         return out
-    pa = pa[0]
-    ka = kvar(pa)
-    ia = ops.int_term([v for t, v in pa.recorded if t == "index"][0])
-    for pb in rb.paths:
-        if unsup(out, pb, tally, timeout_ms):
+    for pa in pas:
+        ka = kvar(pa)
+        idxs = [v for t, v in pa.recorded if t == "index"]
+        if len(idxs) != 1 or ka is None:
+            out["status"] = "inconclusive"
+            out["note"] = "unweighted path without a single subscript / hash position"
             continue
-        if not isinstance(pb.outcome, Return):
-            continue
-        kb = kvar(pb)
-        j = pb.outcome.value
-        conds = list(pa.conds) + [z3.substitute(c, (kb, ka)) for c in pb.conds]
-        r, m = common.check(tally, conds + [ia != j], timeout_ms,
-                            label="C16(d) floor(u*n) != bisect over [1]*n, n=%d leaf %d" % (n, j), keep_sample=(j == 0))
-        note_unknown(out, r)
+        ia = ops.int_term(idxs[0])
+        for pb in rb.paths:
+            if unsup(out, pb, tally, timeout_ms):
+                continue
+            if not isinstance(pb.outcome, Return):
+                continue
+            kb = kvar(pb)
+            j = pb.outcome.value
+            conds = list(pa.conds) + [z3.substitute(c, (kb, ka)) for c in pb.conds]
+            r, m = common.check(tally, conds + [ia != j], timeout_ms,
+                                label="C16(d) floor(u*n) != bisect over [1]*n, n=%d leaf %d" % (n, j), keep_sample=(j == 0))
+            note_unknown(out, r)
+            if r == "sat":
+                kv = mval(m, ka)
+                out["witnesses"].append({"kind": "choice_pair", "position_k": kv,
+                                         "a": {"args": [enc("u"), enc(list(range(n)))], "kwargs": {}},
+                                         "b": {"args": [enc("u"), enc(list(range(n))), enc([1] * n)], "kwargs": {}},
+                                         "why": "no weights and equal integer weights disagree at k=%d (n=%d)" % (kv, n), "plain": ""})
+        r, m = common.check(tally, list(pa.conds) + [ka == 1], timeout_ms)
         if r == "sat":
-            kv = mval(m, ka)
-            out["witnesses"].append({"kind": "choice_pair", "position_k": kv,
-                                     "a": {"args": [enc("u"), enc(list(range(n)))], "kwargs": {}},
-                                     "b": {"args": [enc("u"), enc(list(range(n))), enc([1] * n)], "kwargs": {}},
-                                     "why": "no weights and equal integer weights disagree at k=%d (n=%d)" % (kv, n), "plain": ""})
-    r, m = common.check(tally, list(pa.conds) + [ka == 1], timeout_ms)
-    if r == "sat":
-        out["reach"] += 1
+            out["reach"] += 1
     out["tally"] = tally
     return out
 
